@@ -28,7 +28,7 @@ ASSUMPTIONS = ['docstrings of sismic.model.Statechart are the specification of e
                'the code there; only the listed soundness rules are judged',
                'states added by the workload carry no dangling initial/memory of their own']
 OPS = ['add_state', 'remove_state', 'rename_state', 'move_state', 'add_transition', 'remove_transition', 'rotate_transition']
-REQUIRED_COUNTERS = ['history_state_as_initial', 'removed_name_reused', 'ops_ok', 'ops_rejected', 'views_compared', 'atomicity_checks', 'rejected_partially_valid'] + \
+REQUIRED_COUNTERS = ['removed_object_added_again', 'history_state_as_initial', 'removed_name_reused', 'ops_ok', 'ops_rejected', 'views_compared', 'atomicity_checks', 'rejected_partially_valid'] + \
     ['ok_' + o for o in OPS] + ['rejected_' + o for o in OPS]
 KIND = {BasicState: 'basic', CompoundState: 'compound', OrthogonalState: 'orthogonal', FinalState: 'final',
         ShallowHistoryState: 'shallow', DeepHistoryState: 'deep'}
@@ -286,6 +286,7 @@ def run_case(acc, rnd, tier, case):
     nops = rnd.randint(10, 40 if tier == 'quick' else 80)
     history = []
     removed = []
+    removed_objs = {}
     for k in range(nops):
         names = sc.states
 
@@ -317,8 +318,26 @@ def run_case(acc, rnd, tier, case):
                 partially_valid = (nm not in names) != (par in names)
                 mm = lambda: m.add_state(nm, kind, par, None, kw.get('memory'))      # noqa: E731
                 rr = lambda: sc.add_state(KLASS[kind](nm, **kw), par)                # noqa: E731
+                reuse = [x for x in removed_objs if x not in names]
+                if reuse and rnd.random() < 0.25:
+                    # the very state object that remove_state() took out is added again (its children are gone, and so is
+                    # - as documented - every initial reference to them)
+                    nm = rnd.choice(reuse)
+                    obj = removed_objs.pop(nm)
+                    kind = KIND[type(obj)]
+                    call = ('add_state', nm, kind, par, 'same object as removed')
+                    partially_valid = False
+                    mm = lambda: m.add_state(nm, kind, par, None, None)              # noqa: E731
+                    rr = lambda: sc.add_state(obj, par)                              # noqa: E731
+                    acc.count('removed_object_added_again')
             elif op == 'remove_state':
                 a = pick()
+                if a in names:
+                    # remember the objects that are about to leave the statechart (state itself and its descendants)
+                    for x in [a] + sc.descendants_for(a):
+                        o_ = sc.state_for(x)
+                        if KIND[type(o_)] in ('basic', 'compound', 'orthogonal', 'final'):
+                            removed_objs[x] = o_
                 call = ('remove_state', a)
                 mm = lambda: m.remove_state(a)       # noqa: E731
                 rr = lambda: sc.remove_state(a)      # noqa: E731
